@@ -233,6 +233,11 @@ func convertToInt(other Object) (Int, bool) {
 		} else {
 			return Int(0), true
 		}
+	case *BigInt:
+		// e.g. the literal -9223372036854775808
+		if i, err := b.Int(); err == nil {
+			return i, true
+		}
 		// case Float:
 		// 	ib := Int(b)
 		// 	if Float(ib) == b {
